@@ -3,8 +3,8 @@
    every real certificate and compares it field by field with this description, and verifies its
    signature under the published CA material. *)
 From Coq Require Import ZArith.
-From KM Require Import Base.Bytes Model.Auth Model.Certgen Model.CertgenCases
-                       Proofs.CertgenSpec Proofs.CertgenAuth Proofs.Certgen Proofs.CertgenCert.
+From KM Require Import Base.Bytes Model.Auth Model.Certgen Model.CertgenCases Model.CertgenIdent
+                       Proofs.CertgenSpec Proofs.CertgenAuth Proofs.Certgen Proofs.CertgenCert Proofs.CertgenIdent.
 From KM Require Model.Seal.
 Open Scope N_scope.
 
@@ -94,19 +94,76 @@ Theorem c02_no_other_names : forall expand st now lim q u c,
 Proof. exact no_other_names. Qed.
 Print Assumptions c02_no_other_names.
 
-(* the credential minted for a submitted name is for its normalisation (reprocessUsername);
-   the endpoint compares the raw URL segment with it and writes it into the certificate *)
-Theorem c02_user_is_normalised : forall expand okta disable st now lim q submitted u c,
+(* ---- the authenticated (NORMALISED) user, on EVERY credential path.  A certificate request can
+   authenticate with a name whose spelling the client chose in five ways (Model/CertgenIdent.v credkind):
+   the session cookie of a login by form or by Basic header, the Basic header on the request itself, a
+   client certificate of this keymaster, an IP-restricted automation certificate.  Whatever the way k, the name as typed, the password, the
+   password backend, the Okta filter, the normalisation switch, the server and the rest of the request:
+   if a certificate is issued then the credential path handed on exactly account_of k typed - the
+   normalisation (reprocessUsername) of the typed name; a certificate's common name as it stands -, the
+   certificate names exactly that account, the URL segment is that account byte for byte (NOT the name
+   as typed, unless that is the account), the certified key is the submitted one, and on the password
+   paths the backend accepted the password for THAT account. *)
+Theorem c02_user_is_normalised : forall okta disable backend automation expand st0 q0 now k typed pw u c,
+  ident_certgen okta disable backend automation expand st0 q0 now k typed pw = Issued u c ->
+  identity_of okta disable backend automation k typed pw = Some (account_of okta disable k typed) /\
+  d_names c = [account_of okta disable k typed] /\
+  q_target q0 = account_of okta disable k typed /\
+  (exists ed, q_key q0 = Some (d_key c, ed)) /\
+  (password_kind k = true -> backend (account_of okta disable k typed) pw = true) /\
+  (k = KIpCert -> automation (account_of okta disable k typed) = true).
+Proof. exact ident_issued. Qed.
+Print Assumptions c02_user_is_normalised.
+
+(* forall credential kind: the identity checkAuth returns = normalise (typed name) (a certificate: its common
+   name), on the password paths it is the one account the backend was asked about and accepted the password
+   for, and an IP-restricted certificate's name is byte for byte a configured automation user *)
+Theorem c02_identity_is_account : forall okta disable backend automation k typed pw id,
+  identity_of okta disable backend automation k typed pw = Some id ->
+  id = account_of okta disable k typed /\
+  (password_kind k = true -> p_asked (cred_path okta disable backend automation k typed pw) = Some id /\ backend id pw = true) /\
+  (k = KIpCert -> automation id = true).
+Proof. exact path_identity. Qed.
+Print Assumptions c02_identity_is_account.
+
+(* a request for any other spelling than the account - the name as typed, when that is not the
+   normalised one - is refused on every credential path *)
+Theorem c02_other_spelling_refused : forall okta disable backend automation expand st0 q0 now k typed pw,
+  q_target q0 <> account_of okta disable k typed ->
+  exists code, ident_certgen okta disable backend automation expand st0 q0 now k typed pw = Refused code.
+Proof. exact ident_other_spelling_refused. Qed.
+Print Assumptions c02_other_spelling_refused.
+
+(* the endpoint alone: the subject's name is compared with the raw URL segment and written into the
+   certificate *)
+Theorem c02_normalised_name_certified : forall expand okta disable st now lim q submitted u c,
   s_name st u = normalise okta disable submitted ->
   certgen expand st now lim q = Issued u c ->
   q_target q = normalise okta disable submitted /\ d_names c = [normalise okta disable submitted].
 Proof. exact user_is_normalised. Qed.
-Print Assumptions c02_user_is_normalised.
+Print Assumptions c02_normalised_name_certified.
 
 Theorem c02_normalise_idempotent : forall disable name,
   normalise None disable (normalise None disable name) = normalise None disable name.
 Proof. exact normalise_idem. Qed.
 Print Assumptions c02_normalise_idempotent.
+
+(* ... also with the Okta backend's default filter ("@.*"): nothing of a mail domain survives it *)
+Theorem c02_normalise_idempotent_okta : forall disable name,
+  normalise (Some okta_at_filter) disable (normalise (Some okta_at_filter) disable name) =
+  normalise (Some okta_at_filter) disable name.
+Proof. exact normalise_okta_idem. Qed.
+Print Assumptions c02_normalise_idempotent_okta.
+
+(* a basic-auth branch that checks the password for the normalised account but hands on the name AS TYPED
+   (Model/CertgenIdent.v basic_branch_typed) breaks c02_identity_is_account: "Alice" with alice's password *)
+Theorem c02_typed_identity_refuted :
+  exists okta disable backend typed pw id,
+    p_identity (basic_branch_typed okta disable backend typed pw) = Some id /\
+    p_asked (basic_branch_typed okta disable backend typed pw) <> Some id /\
+    id <> normalise okta disable typed.
+Proof. exact typed_identity_refuted. Qed.
+Print Assumptions c02_typed_identity_refuted.
 
 (* Before the repair of lib/certgen (0889d74) the PKINIT name of a long user name was corrupt:
    realm EXAMPLE.COM, a 100-byte name *)
@@ -146,6 +203,21 @@ Example c02_published_example :
   | Issued u d => d_signer d = 2 /\ u = 1
   | Refused _ => False
   end.
+Proof. vm_compute. repeat split; reflexivity. Qed.
+
+(* non-vacuity of the credential paths: "Alice@Company.COM" by Basic header, alice's password, Okta filter:
+   the account is "alice"; /certgen/alice is served with a certificate naming alice, /certgen/Alice
+   is refused 403; with the wrong password 401 *)
+Example c02_ident_example :
+  let typed := n_Alice ++ [64;67;111;109;112;97;110;121;46;67;79;77] in
+  let backend := fun a p : bs => bs_eqb a n_alice && bs_eqb p [112] in
+  let st0 := case_server_at 0 [sPassword] 0 in
+  let q0 t := case_req (sh NoCr t) 0 0 in
+  account_of (Some okta_at_filter) false KBasic typed = n_alice /\
+  (match ident_certgen (Some okta_at_filter) false backend (fun _ => false) no_expand st0 (q0 1) 0%Z KBasic typed [112] with
+   | Issued _ d => d_names d = [n_alice] | Refused _ => False end) /\
+  ident_certgen (Some okta_at_filter) false backend (fun _ => false) no_expand st0 (q0 5) 0%Z KBasic typed [112] = Refused 403 /\
+  ident_certgen (Some okta_at_filter) false backend (fun _ => false) no_expand st0 (q0 1) 0%Z KBasic typed [113] = Refused 401.
 Proof. vm_compute. repeat split; reflexivity. Qed.
 
 Example c02_alice : normalise None false n_Alice = n_alice /\ run_case 4 48 0 0 0 = 0 /\ run_case 4 8 0 0 0 = 6.
